@@ -361,15 +361,38 @@ pub fn orchestrate(p: &dyn Prop, tier: Tier, plan: &Plan, jobs: usize) -> CheckR
         // (a change that makes a whole family of inputs hang would otherwise cost minutes per case)
         let stuck_seen = std::sync::Mutex::new(std::collections::BTreeSet::<u64>::new());
         let hangs_confirmed = std::sync::atomic::AtomicUsize::new(0);
+        let inflight = std::sync::atomic::AtomicUsize::new(0);
         const CONFIRM_FIRST: usize = 4;
         std::thread::scope(|s| {
             for _ in 0..jobs {
                 s.spawn(|| loop {
-                    let item = queue.lock().unwrap().pop();
+                    // a range in flight may come back in pieces (bisection, stuck case): idle
+                    // threads wait for that instead of leaving the tail to one thread
+                    let item = {
+                        let mut q = queue.lock().unwrap();
+                        let it = q.pop();
+                        if it.is_some() {
+                            inflight.fetch_add(1, std::sync::atomic::Ordering::SeqCst);
+                        }
+                        it
+                    };
                     let (a, b) = match item {
                         Some(r) => r,
-                        None => break,
+                        None => {
+                            if inflight.load(std::sync::atomic::Ordering::SeqCst) == 0 {
+                                break;
+                            }
+                            std::thread::sleep(Duration::from_millis(3));
+                            continue;
+                        }
                     };
+                    struct Done<'a>(&'a std::sync::atomic::AtomicUsize);
+                    impl Drop for Done<'_> {
+                        fn drop(&mut self) {
+                            self.0.fetch_sub(1, std::sync::atomic::Ordering::SeqCst);
+                        }
+                    }
+                    let _done = Done(&inflight);
                     // one case of a multi-case stage (isolated by the watchdog or by bisection):
                     // its own wall cap, not the whole chunk's
                     let cap = if st.chunk > 1 && b - a == 1 { st.timeout.min(Duration::from_secs(2 * STUCK_SECS)) } else { st.timeout };
